@@ -38,6 +38,18 @@ func main() {
 	switch os.Args[1] {
 	case "check":
 		os.Exit(cmdCheck(os.Args[2:]))
+	case "anchors":
+		// ledgerlint anchors [--repo dir] [--verif dir]: record the functions of the tree as the baseline for rename detection
+		fs := flag.NewFlagSet("anchors", flag.ExitOnError)
+		repo := fs.String("repo", "/repo", "repository directory")
+		verif := fs.String("verif", "/verif", "verification directory")
+		fs.Parse(os.Args[2:])
+		c := core.NewCtx("anchors", "quick", *repo, *verif)
+		if err := rules.WriteAnchors(c, *verif); err != nil {
+			fmt.Println("anchors:", err)
+			os.Exit(2)
+		}
+		fmt.Println("written", filepath.Join(*verif, "anchors.json"))
 	case "checkall":
 		os.Exit(cmdCheckAll(os.Args[2:]))
 	case "replay":
@@ -148,6 +160,7 @@ func cmdCheck(args []string) (code int) {
 				c.Unknown("framework", "analyzer-panic", "", fmt.Sprintf("%v\n%s", r, lastLines(string(debug.Stack()), 30)))
 			}
 		}()
+		rules.NormaliseRenames(c, *verif)
 		check(c)
 	}()
 	if *tier == "thorough" && !*noEvidence {
@@ -200,7 +213,9 @@ func cmdCheckAll(args []string) int {
 			}()
 			if first == nil {
 				first = c
+				rules.NormaliseRenames(c, *verif)
 			} else {
+				c.Overlay = first.Overlay
 				c.ShareFrom(first)
 			}
 			check(c)
